@@ -57,22 +57,8 @@ def run(ctx, report: Report) -> None:
 
     # ---- R4 ----------------------------------------------------------------------------------------------
     r4 = report.rule('C11-R4', 'util.lower folds exactly A-Z', floor=33)
-    bad = None
-    probes = [chr(c) for c in range(128)] + ['\xc9', 'İ', 'K', 'Σ', '\U0001d400']
-    try:
-        for ch in probes:
-            got = eval_lower('x' + ch + 'y')
-            exp = 'x' + (chr(ord(ch) + 32) if 'A' <= ch <= 'Z' else ch) + 'y'
-            r4.instance({'char': repr(ch), 'lower': repr(got)}, key=repr(ch), sample_cap=3)
-            if got != exp and bad is None:
-                bad = (ch, got, exp)
-    except miniev.Unsupported as e:
-        raise AnalysisError(f'util.lower: outside the evaluable fragment: {e}')
-    r4.obligation(bad is None)
-    if bad is not None:
-        r4.violation('util.lower ascii fold', umod.where(lower_fn),
-                     f'util.lower({("x" + bad[0] + "y")!r}) = {bad[1]!r}, expected {bad[2]!r}: ASCII case folding must map '
-                     f'exactly A-Z to a-z and leave every other character alone')
+    from .sem import util_lower_table
+    util_lower_table(ctx, r4)
 
     # ---- R1 ----------------------------------------------------------------------------------------------
     r1 = report.rule('C11-R1', 'name comparison follows the document type', floor=42)
